@@ -18,6 +18,7 @@ import (
 	"runtime"
 	"strconv"
 	"strings"
+	"time"
 
 	"github.com/semihalev/twig"
 )
@@ -319,9 +320,12 @@ func cmdHistory(args []string) {
 		if len(c.Ops) == 0 {
 			continue
 		}
-		res := runHistory(h, &c, oracle)
+		res, hung := guarded(20*time.Second, func() Result { return runHistory(h, &c, oracle) }, func() Result { return hangResult(c.Prop, c.Key, c.Tags, "history") })
 		enc.Encode(res)
 		w.Flush() // a fatal runtime error in the engine must not lose the results so far
+		if hung {
+			os.Exit(3)
+		}
 	}
 }
 
